@@ -1065,7 +1065,8 @@ func unparseLiteral(l b6.AnyLiteral) (string, bool) {
 	case b6.FeatureIDExpression:
 		return UnparseFeatureID(b6.FeatureID(l), true), true
 	case b6.PointExpression:
-		return fmt.Sprintf("%f, %f", l.Lat.Degrees(), l.Lng.Degrees()), true
+		// 7 decimal places, matching the E7 precision of PointProto
+		return fmt.Sprintf("%.7f, %.7f", l.Lat.Degrees(), l.Lng.Degrees()), true
 	case b6.QueryExpression:
 		return UnparseQuery(l.Query)
 	default:
